@@ -18,6 +18,8 @@ def run(ck, pid, timeout_mix, n_quick, n_thorough, title_rule):
         hs = []
         for i in range(n_thorough if ck.tier == "thorough" else n_quick):
             hs.append(L.history(rng, timeout_mix(i), rng.choice([1, 2, 3, 4, 6, 8])))
+        # a serving call that still drains a connection while the same object is already bound and served again (real sockets)
+        hs += [["overlap-drain %d" % i] for i in range(12 if ck.tier == "thorough" else 3)]
     lines = [" | ".join(h) for h in hs]
     lines_u = list(dict.fromkeys(lines))
     hs = [l.split(" | ") for l in lines_u]
